@@ -85,7 +85,7 @@ def model_req(S, T, cell):
             return "ff %s %s %d" % (S, T, bits), None
         if kt == "dec":
             p, s = dps(T)
-            return "fd 1 %s %s %d %d %d" % (S, dsto(T), p, s, bits), None
+            return "fd 1 %s %s %d %d %d" % (S, dsto(T), p, s, bits), "sfd %s %d %d %d" % (S, p, s, bits)
     if ks == "dec":
         v = int(body.split("/")[0])
         p1, s1 = dps(S)
@@ -224,27 +224,40 @@ def classify(S, T, cell, impl, spec):
     The repaired defects (findings/C13.json "fixed") have no class any more: if one of them comes back the
     implementation differs from the re-transcribed model and/or from the specification -> violation."""
     ks, kt = kind(S), kind(T)
-    if ks == "dec" and kt == "dec" and impl == ("err",) and spec[0] == "ok":
-        if 10 ** abs(dps(S)[1] - dps(T)[1]) >= 1 << (63 if dsto(T) == "d64" else 127):
-            return "rescale-factor-exceeds-target-primitive"
-    if ks == "dec" and kt == "dec" and impl == ("err",) and spec[0] == "ok" and dsto(S) == "d128" and dsto(T) == "d64":
-        if abs(int(cell[1:].split("/")[0])) >= 1 << 63:
-            return "rescale-narrows-before-downscale"
+    if ks == "float" and kt == "dec" and float_product_exact(S, int(cell[1:], 16), dps(T)[1]):
+        return None      # C13_float_to_decimal_exact_when_representable: no deviation is allowed here
     if ks == "float" and kt == "dec" and impl[0] == "ok" and spec[0] == "ok":
         a, b = int(impl[1][1:].split("/")[0]), int(spec[1][1:].split("/")[0])
-        # the product v * 10^s is rounded to the source float format before .round(): at most one ulp of the
-        # product (and one unit from the second rounding); 10^s itself is a rounded float for s > 22 (f64) / s > 10 (f32)
-        extra = 2 if dps(T)[1] > (10 if S == "f32" else 22) else 0
-        if abs(a - b) <= max(1, 1 << max(abs(b).bit_length() - (23 if S == "f32" else 52) + extra, 0)):
+        # the product v * 10^s is rounded to f64 before .round(): at most one f64 ulp of the product (and one unit
+        # from the second rounding); 10^s itself is a rounded f64 for s > 22
+        extra = 2 if dps(T)[1] > 22 else 0
+        if abs(a - b) <= max(1, 1 << max(abs(b).bit_length() - 52 + extra, 0)):
             return "float-to-decimal-product-rounded-twice"
     if ks == "float" and kt == "dec" and {impl[0], spec[0]} == {"ok", "err"}:
         ok = impl if impl[0] == "ok" else spec
         b = int(ok[1][1:].split("/")[0])
-        extra = 2 if dps(T)[1] > (10 if S == "f32" else 22) else 0
+        extra = 2 if dps(T)[1] > 22 else 0
         lim = min(10 ** dps(T)[0], 1 << (63 if dsto(T) == "d64" else 127))
-        if abs(abs(b) - lim) <= max(1, 1 << max(abs(b).bit_length() - (23 if S == "f32" else 52) + extra, 0)):
+        if abs(abs(b) - lim) <= max(1, 1 << max(abs(b).bit_length() - 52 + extra, 0)):
             return "float-to-decimal-product-rounded-twice"
     return None
+
+
+def float_product_exact(S, bits, s):
+    """the hypotheses of C13_float_to_decimal_exact_when_representable: the mantissa is a * 2^t with a * 5^s < 2^53
+    (every f32 for s <= 12), the scale is at most 22 and the product does not overflow f64"""
+    mb, eb = (23, 8) if S == "f32" else (52, 11)
+    mant = bits & ((1 << mb) - 1)
+    ex = (bits >> mb) & ((1 << eb) - 1)
+    bias = (1 << (eb - 1)) - 1
+    if ex == (1 << eb) - 1:
+        return False
+    m, e = (mant, 1 - bias - mb) if ex == 0 else (mant + (1 << mb), ex - bias - mb)
+    if m == 0:
+        return 0 <= s <= 22
+    t = (m & -m).bit_length() - 1
+    a = m >> t
+    return 0 <= s <= 22 and a * 5 ** s < 1 << 53 and e >= -1074 and e + t + s <= 971
 
 
 # ---------------------------------------------------------------- value pools
@@ -308,6 +321,7 @@ def dec_values(t, rng, tier):
     p, s = dps(t)
     lim = 10 ** p - 1
     pool = {0, 1, -1, lim, -lim, lim // 2, 10 ** s, -(10 ** s), 5 * 10 ** max(s - 1, 0), -5 * 10 ** max(s - 1, 0),
+            15 * 10 ** max(s - 1, 0), -15 * 10 ** max(s - 1, 0), 25 * 10 ** max(s - 1, 0), 14 * 10 ** max(s - 1, 0),
             12345, -12345, 12344, 12346, 12355, 995, 9995, 99995, -99995, 15, 25, -15, -25, 149, 150, 151, 49, 50, 51}
     for k in range(0, p + 1):
         for d in (-1, 0, 1):
@@ -632,6 +646,10 @@ def stage_sql(ctx, rng, gverif, gmodel):
             model = canon_out(T, out_cell(T, mout[mi])) if mi is not None else None
             if isinstance(sp, tuple) and sp and sp[0] == "line":
                 sp = canon_out(T, out_cell(T, mout[sp[1]]))
+                py = py_spec(S, T, c)      # the independent (exact rational) specification must agree with the Coq-side one
+                if py is not None and canon_out(T, py) != sp:
+                    viol.append({"kind": "Coq-side specification differs from the exact-rational specification (%s -> %s)" % (S, T),
+                                 "value": c, "coq_spec": sp, "python_spec": py})
             elif sp is not None:
                 sp = canon_out(T, sp)
             exp[(T, c)] = (model, sp)
@@ -857,6 +875,46 @@ def stage_roundtrip_sql(ctx, rng, gverif):
     return {"values": n, "violations": viol, "known": known}
 
 
+# ---------------------------------------------------------------- witnesses of the repaired defects
+REGRESSIONS = [
+    # (finding it was the witness of, statement, expected cell or None for an error)
+    ("rescale-narrows-before-downscale (fixed PENDING-1)",
+     "select cast(cast('99999999999999.99999' as decimal(30,5)) as decimal(18,0))", "D100000000000000/18/0"),
+    ("rescale-narrows-before-downscale (fixed PENDING-1)",
+     "select cast(cast('-100000000000000000.00001' as decimal(30,5)) as decimal(18,0))", "D-100000000000000000/18/0"),
+    ("rescale-narrows-before-downscale (fixed PENDING-1), result does not fit",
+     "select cast(cast('12345678901234567890.5' as decimal(30,5)) as decimal(18,0))", None),
+    ("rescale-factor-exceeds-target-primitive (fixed PENDING-1)",
+     "select cast(cast('1.5' as decimal(38,20)) as decimal(18,0))", "D2/18/0"),
+    ("rescale-factor-exceeds-target-primitive (fixed PENDING-1)",
+     "select cast(cast('-0.5' as decimal(38,20)) as decimal(18,0))", "D-1/18/0"),
+    ("rescale-factor-exceeds-target-primitive (fixed PENDING-1)",
+     "select cast(cast('0.49999999999999999999' as decimal(38,20)) as decimal(18,0))", "D0/18/0"),
+    ("float-to-decimal product in the source float format (fixed PENDING-1)",
+     "select cast(cast('9.5' as float) as decimal(18,9))", "D9500000000/18/9"),
+    ("float-to-decimal product in the source float format (fixed PENDING-1)",
+     "select cast(cast('0.1' as float) as decimal(18,9))", "D100000001/18/9"),
+    ("round(decimal) goes through DecimalToDecimal<D, D> (touched by PENDING-1)",
+     "select round(cast('1.25' as decimal(5,2)), 1)", "D13/5/1"),
+    ("round(decimal) goes through DecimalToDecimal<D, D> (touched by PENDING-1)",
+     "select round(cast('-12345678901234567890.5' as decimal(30,5)))", "D-12345678901234567891/30/0"),
+]
+
+
+def stage_regressions(ctx, gverif):
+    """the witnesses of the repaired defects, in every run: the exact expected result, nothing else is accepted"""
+    cases = [{"id": "reg%d" % i, "mode": "det", "partitions": 1, "timeout_s": 60, "stmts": [sql]} for i, (_, sql, _) in enumerate(REGRESSIONS)]
+    out = common.run_harness(gverif, "sql", cases, timeout=600)
+    viol = []
+    for (what, sql, want), r in zip(REGRESSIONS, out):
+        o = res_outcome((r.get("results") or [None])[-1])
+        got = o[1][0][0] if o[0] == "rows" and len(o[1]) == 1 else None
+        ok = (o[0] == "err") if want is None else (got == want)
+        if not ok:
+            viol.append({"kind": "a repaired defect is back: " + what, "sql": [sql], "expected": want or "an error", "result": o})
+    return {"values": len(REGRESSIONS), "violations": viol}
+
+
 # ---------------------------------------------------------------- driver
 def run(ctx):
     t0 = time.time()
@@ -878,8 +936,9 @@ def run(ctx):
     s = stage_sql(ctx, rng, gverif, gmodel)
     t3 = time.time()
     r = stage_roundtrip_sql(ctx, rng, gverif)
+    g = stage_regressions(ctx, gverif)
     t4 = time.time()
-    for v in u["violations"] + s["violations"] + r["violations"]:
+    for v in u["violations"] + s["violations"] + r["violations"] + g["violations"]:
         out["violations"].append({"what": v.get("kind", "violation"), "replay": v, "no_input": False})
     for m in u["mismatches"][:40]:
         out["violations"].append({"what": "real parser/formatter differs from the faithful model (model/TextConv.v)", "replay": m, "no_input": False})
@@ -909,9 +968,10 @@ def run(ctx):
                          "Rust std float parsing/printing (not modelled; only the engine-level round trip is checked)",
                          "chrono 0.4.41 is modelled (NaiveDate::from_str, %Y-%m-%d, day numbering), tied by correspondence only",
                          "num_traits::checked_pow is modelled by its specification (Some(b^n) iff it fits); 10f64.powi(n) by compiler-rt's __powidf2 loop; both tied by correspondence (scales 0..37)",
+                         "`<f64 as NumCast>::from(f32)` is modelled as the IEEE widening (round_float F64, proved exact); f16 sources are not modelled",
                          "vlib/tables_cast.py scanner: CastFlatten::Safe integer casts and the flattening condition in expr/cast_expr.rs"],
         "theorems": obligations,
-        "evaluations": u["evaluations"] + s["values"] + r["values"],
+        "evaluations": u["evaluations"] + s["values"] + r["values"] + g["values"],
         "distinct_nontrivial": s["distinct"] + u["cases"],
         "rule": "units: every item = one call of a real parser/formatter compared with the extracted model, plus parse(format v)=v on the real code; "
                 "sql: every value = one (source value, target type) cast outcome compared with the extracted model and the specification; "
@@ -920,7 +980,7 @@ def run(ctx):
         "samples": s["samples"][:4],
         "unit_items": u["evaluations"], "unit_roundtrips": u["roundtrips"], "days_formatted": u["days_formatted"],
         "sql_values": s["values"], "sql_pairs_with_cast": len(s["pairs"]), "sql_pairs": s["pairs"], "pairs_without_cast": s["nocast"],
-        "sql_roundtrip_values": r["values"], "exhaustive": False,
+        "sql_roundtrip_values": r["values"], "regression_witnesses": g["values"], "exhaustive": False,
         "source_constants": tb, "stage_seconds": {"build+proofs": round(t1 - t0, 1), "units": round(t2 - t1, 1), "sql": round(t3 - t2, 1), "roundtrip": round(t4 - t3, 1)},
     }
     out["assumptions"] = ["float <-> text is Rust std (not modelled); float values reach tables through text parsing and are read back before use",
